@@ -450,6 +450,48 @@ func (o *OracleC14) Judge(w *World, b *BlockCtx, p *ProbeResult) {
 					need.Add(need, want)
 				}
 			}
+			// ... and at most what its own price gives for what left the escrow: a refund (closed
+			// remainder) is coin that was not sold, so it reduces the proceeds at least at the lowest price
+			if len(groups) == 1 {
+				most := big.NewInt(int64(len(g)) + 1)
+				var minNum, minDen *big.Int // lowest buy/sell among closed orders
+				closed := 0
+				for _, x := range g {
+					y := after[x.id]
+					left := new(big.Int).Set(x.sell)
+					if y != nil {
+						left.Sub(left, y.sell)
+					} else {
+						closed++
+						if minNum == nil || new(big.Int).Mul(x.buy, minDen).Cmp(new(big.Int).Mul(minNum, x.sell)) < 0 {
+							minNum, minDen = x.buy, x.sell
+						}
+					}
+					c := new(big.Int).Mul(left, x.buy)
+					c.Add(c, new(big.Int).Sub(x.sell, big.NewInt(1)))
+					most.Add(most, c.Div(c, x.sell))
+					// the sold amount is rounded down to a whole unit: up to one unit's worth more
+					u := new(big.Int).Add(x.buy, new(big.Int).Sub(x.sell, big.NewInt(1)))
+					most.Add(most, u.Div(u, x.sell))
+				}
+				if closed == 0 && gotSell.Sign() > 0 {
+					w.Report("C14", "orders", "refund-without-close", fmt.Sprintf("height %d: maker %s was credited %s of the coin it sells (%d) although none of its orders was closed", p.Height, owner.String(), gotSell, k.s), p.Height)
+					return
+				}
+				total := new(big.Int).Set(gotBuy)
+				if closed > 0 && gotSell.Sign() > 0 {
+					total.Add(total, new(big.Int).Div(new(big.Int).Mul(gotSell, minNum), minDen))
+				}
+				// filled amounts are derived with floats: allow one part in 10^15
+				most.Add(most, new(big.Int).Div(most, big.NewInt(1e15)))
+				if total.Cmp(most) > 0 {
+					w.Report("C14", "orders", "maker-overpaid", fmt.Sprintf("height %d: maker %s: %d order(s) selling coin %d for coin %d lost escrow worth at most %s at their own prices, the maker received %s plus a refund of %s", p.Height, owner.String(), len(g), k.s, k.b, most, gotBuy, gotSell), p.Height)
+					return
+				}
+				if closed > 0 && gotSell.Sign() > 0 {
+					w.Probe("c14_closed_remainder_refund_checked")
+				}
+			}
 			if gotBuy.Cmp(need) < 0 {
 				w.Report("C14", "orders", "filled-below-price", fmt.Sprintf("height %d: maker %s had %d order(s) selling coin %d for coin %d consumed and should receive at least %s at its own price, received %s (refunded %s)", p.Height, owner.String(), len(g), k.s, k.b, need, gotBuy, gotSell), p.Height)
 				return
@@ -667,6 +709,6 @@ func init() {
 			return []Monitor{&MonProbe{Oracles: []Prober{&OracleC14{}}}, MonC14Expiry{}}
 		},
 		Distinct: probeDistinct,
-		ExpectProbes: []string{"c14_order_placed", "c14_fill_checked", "c14_trade_with_fills", "c14_trade_with_several_fills", "c14_cancel_checked", "c14_expiry_checked", "c14_cancel_by_stranger_rejected"},
+		ExpectProbes: []string{"c14_order_placed", "c14_fill_checked", "c14_trade_with_fills", "c14_trade_with_several_fills", "c14_cancel_checked", "c14_expiry_checked", "c14_cancel_by_stranger_rejected", "c14_closed_remainder_refund_checked", "c14_equal_price_neighbours_consumed"},
 	})
 }
